@@ -83,16 +83,36 @@ Proof. exists x. reflexivity. Qed.
 Lemma grows_nth {X} (l l' : list X) i x : grows l l' -> nth_error l i = Some x -> nth_error l' i = Some x.
 Proof. intros (y & ->). apply nth_error_app_l. Qed.
 
-Lemma dest_sim_mono phi uu phi' uu' d d' : grows phi phi' -> grows uu uu' -> dest_sim phi uu d d' -> dest_sim phi' uu' d d'.
+(* phi may grow, and a cluster may gain its implicit router: the row's node of every cluster stays *)
+Definition phi_le (phi phi' : list cluster) : Prop :=
+  forall k c, nth_error phi k = Some c -> exists c', nth_error phi' k = Some c' /\ fst c' = fst c.
+
+Lemma phi_le_refl phi : phi_le phi phi.
+Proof. intros k c H. exists c. auto. Qed.
+Lemma phi_le_trans a b c : phi_le a b -> phi_le b c -> phi_le a c.
 Proof.
-  intros Hp Hu. destruct d as [| |k], d' as [u|]; cbn; auto.
-  intros (Hne & c & Hc & Hn). split; [exact Hne|]. exists c. split; eapply grows_nth; eauto.
+  intros H1 H2 k x Hx. destruct (H1 k x Hx) as (y & Hy & Ey). destruct (H2 k y Hy) as (z & Hz & Ez). exists z. split; [exact Hz|congruence].
+Qed.
+Lemma phi_le_app phi x : phi_le phi (phi ++ x).
+Proof. intros k c H. exists c. split; [apply nth_error_app_l, H|reflexivity]. Qed.
+Lemma phi_le_update phi k c c' : nth_error phi k = Some c -> fst c' = fst c -> phi_le phi (RowSem.update phi k c').
+Proof.
+  intros Hk Ef j x Hx. destruct (Nat.eq_dec j k) as [->|Hne].
+  - assert (x = c) by congruence. subst x. exists c'. split; [eapply update_nth_same; eauto|exact Ef].
+  - exists x. split; [rewrite update_nth_other by exact Hne; exact Hx|reflexivity].
 Qed.
 
-Lemma cat_sim_mono phi uu phi' uu' x c : grows phi phi' -> grows uu uu' -> cat_sim phi uu x c -> cat_sim phi' uu' x c.
+Lemma dest_sim_mono phi uu phi' uu' d d' : phi_le phi phi' -> grows uu uu' -> dest_sim phi uu d d' -> dest_sim phi' uu' d d'.
+Proof.
+  intros Hp Hu. destruct d as [| |k], d' as [u|]; cbn; auto.
+  intros (Hne & c & Hc & Hn). split; [exact Hne|]. destruct (Hp k c Hc) as (c' & Hc' & Ef). exists c'. split; [exact Hc'|].
+  rewrite Ef. eapply grows_nth; eauto.
+Qed.
+
+Lemma cat_sim_mono phi uu phi' uu' x c : phi_le phi phi' -> grows uu uu' -> cat_sim phi uu x c -> cat_sim phi' uu' x c.
 Proof. intros Hp Hu [H1 H2]. split; [exact H1|eapply dest_sim_mono; eauto]. Qed.
 
-Lemma dec_sim_mono phi uu phi' uu' d r : grows phi phi' -> grows uu uu' -> dec_sim phi uu d r -> dec_sim phi' uu' d r.
+Lemma dec_sim_mono phi uu phi' uu' d r : phi_le phi phi' -> grows uu uu' -> dec_sim phi uu d r -> dec_sim phi' uu' d r.
 Proof.
   intros Hp Hu [H1 H2 H3 H4 H5 H6 H7 H8]. constructor; try assumption.
   - unfold wait_sim in *. destruct (rd_wait d), (sw_wait r); try assumption.
@@ -101,7 +121,7 @@ Proof.
   - eapply cat_sim_mono; eauto.
 Qed.
 
-Lemma node_sim_mono phi uu phi' uu' n nd o : grows phi phi' -> grows uu uu' -> node_sim phi uu n nd o -> node_sim phi' uu' n nd o.
+Lemma node_sim_mono phi uu phi' uu' n nd o : phi_le phi phi' -> grows uu uu' -> node_sim phi uu n nd o -> node_sim phi' uu' n nd o.
 Proof.
   intros Hp Hu H. destruct H.
   - eapply NS_basic; eauto. eapply dest_sim_mono; eauto.
